@@ -34,6 +34,11 @@ func (ks KeySet) Foreach(fn func(Key)) {
 }
 
 func (ks KeySet) Exists(k Key) bool {
+	if ks.head == nil {
+		// Empty set. Without this check an empty set would claim to
+		// contain the empty key (nil and empty slices compare equal).
+		return false
+	}
 	if ks.head.Equal(k) {
 		return true
 	}
